@@ -87,6 +87,11 @@ def case_history(ctx, spec):
             if run.root.bankrupt:
                 raise Discard("bankrupt")
             machine.check_price(run, tag)
+            # the index series is read after every operation (several times per date): its last entry is the current index, also when a
+            # cost was booked since the previous read of the same date
+            ser = run.root.prices
+            if len(ser) and not (float(ser.iloc[-1]) == float(p1)):
+                raise Violation("%s: the index series ends with %r but the index is %r (series read before on the same date: %s)" % (tag, float(ser.iloc[-1]), float(p1), k > 0), signature="prices-series-stale")
             if op[0] == "adjust" and op[1] == M.root.path and op[3]:
                 if run.i > 0:
                     n_flow += 1
